@@ -3,7 +3,7 @@
    of the property, over the property's own alphabet).  No proofs here. *)
 From Coq Require Import NArith ZArith List Bool.
 From KT Require Import Gen.Generated Gen.Alphabet Model.Kmer Model.Show.
-From KT Require Import Proof.RevComp Proof.PosMap Proof.MinAbs Proof.MinSpec Proof.MinConc Proof.KmMin Proof.Oligo.
+From KT Require Import Proof.RevComp Proof.PosMap Proof.MinAbs Proof.MinSpec Proof.MinConc Proof.MinFast Proof.KmMin Proof.Oligo.
 Import ListNotations.
 Open Scope N_scope.
 
@@ -52,11 +52,11 @@ Definition s_header (k : nat) : list N := join comma (map (s_dec k) (canon_list 
 
 (* ---------- C09 / C18 ---------- *)
 Definition m_mg (w m : nat) (s : list N) : list N := show_runs (mg_run nt4m w m s).
-Definition s_mg (w m : nat) (s : list N) : list N := show_runs (grp_go digit_of_letter w m None nil s).
+Definition s_mg (w m : nat) (s : list N) : list N := show_runs (spec_runs_fast digit_of_letter w m s).
 Definition m_kmg (w m : nat) (s : list N) : list N := show_kruns (kmg_run nt4km w m s).
 (* spec: the property fixes the runs and the concatenation of the attached lists, not how the w-mers are
    dealt out to the runs; rendered as  runs|k1+k2+...  (the comparison flattens the implementation's output
    the same way) *)
 Definition s_kmg (w m : nat) (s : list N) : list N :=
-  show_runs (grp_go digit_of_letter w m None nil s) ++ [124] ++
+  show_runs (spec_runs_fast digit_of_letter w m s) ++ [124] ++
   join [43] (map dec (map KmMin.cmin (spec_kmers digit_of_letter w s))).
